@@ -379,28 +379,28 @@ var ruleFailProp = &core.Rule{ID: "R08.2", Min: 12,
 					}
 					s.Bad(key, c.Pos(r.Pos()), fmt.Sprintf("after %s failed (edge b%d->b%d) this return yields %s, not 0: the enclosing container treats the failed value as consumed",
 						e.calls[0].Call.StaticCallee().Name(), e.from.Index, e.to.Index, r.Results[0]))
-					}
-					}
-					}
-					// wrappers: a can-fail scanner call inside a wrapper is either tested there or returned at a pass-through position
-					var ws []*ssa.Function
-					for w := range m.wrap {
-					ws = append(ws, w)
-					}
-					sort.Slice(ws, func(i, j int) bool { return ws[i].Name() < ws[j].Name() })
-					for _, w := range ws {
-					_, tested := failEdges(w, m.fam)
-					for _, ci := range core.Calls(w) {
-					call, ok := ci.(*ssa.Call)
-					if !ok {
+				}
+			}
+		}
+		// wrappers: a can-fail scanner call inside a wrapper is either tested there or returned at a pass-through position
+		var ws []*ssa.Function
+		for w := range m.wrap {
+			ws = append(ws, w)
+		}
+		sort.Slice(ws, func(i, j int) bool { return ws[i].Name() < ws[j].Name() })
+		for _, w := range ws {
+			_, tested := failEdges(w, m.fam)
+			for _, ci := range core.Calls(w) {
+				call, ok := ci.(*ssa.Call)
+				if !ok {
 					continue
-					}
-					g := call.Call.StaticCallee()
-					if g == nil || !m.fam[g] || !canFail(g) {
+				}
+				g := call.Call.StaticCallee()
+				if g == nil || !m.fam[g] || !canFail(g) {
 					continue
-					}
-					passed := false
-					for _, ref := range *call.Referrers() {
+				}
+				passed := false
+				for _, ref := range *call.Referrers() {
 					if r, ok := ref.(*ssa.Return); ok {
 						for k, v := range r.Results {
 							if v == ssa.Value(call) && m.passIdx[w][k] {
@@ -408,18 +408,18 @@ var ruleFailProp = &core.Rule{ID: "R08.2", Min: 12,
 							}
 						}
 					}
-					}
-					// position-passing wrappers add the count to a position; the count's failure shows in their bool result
-					added := false
-					for _, ref := range *call.Referrers() {
+				}
+				// position-passing wrappers add the count to a position; the count's failure shows in their bool result
+				added := false
+				for _, ref := range *call.Referrers() {
 					if bo, ok := ref.(*ssa.BinOp); ok && bo.Op == token.ADD {
 						added = true
 					}
-					}
-					key := fmt.Sprintf("%s: result of %s tested", w.Name(), callOrdinal(call))
-					s.Check(tested[call] || passed || (added && !canReturnZeroOnly(g)), key, c.Pos(call.Pos()), "tested, or handed through to the caller", fmt.Sprintf("result of %s is neither tested nor handed to the caller as the consumed count", g.Name()))
-					}
-					}
+				}
+				key := fmt.Sprintf("%s: result of %s tested", w.Name(), callOrdinal(call))
+				s.Check(tested[call] || passed || (added && !canReturnZeroOnly(g)), key, c.Pos(call.Pos()), "tested, or handed through to the caller", fmt.Sprintf("result of %s is neither tested nor handed to the caller as the consumed count", g.Name()))
+			}
+		}
 	}}
 
 // canReturnZeroOnly: g signals failure by 0 and 0 is not also a legitimate count (a scanner that may consume nothing,
@@ -524,13 +524,72 @@ func stackAnalysis(c *core.Ctx) []stackSite {
 	if m.stackF < 0 {
 		core.Bail("no path stack field (slice with single-element append) found in the scanner state")
 	}
+	// Scanner summaries: by default a scanner leaves the stack where it found it on success and not below on
+	// failure. A scanner every success return of which leaves it at the same entry+d (a member helper that pushes
+	// the key for its caller to pop) is summarised with that d; the assumption is re-checked until it is stable.
+	sum := map[*ssa.Function]int{}
 	var all []stackSite
+	for round := 0; ; round++ {
+		all = nil
+		changed := false
+		for _, f := range m.famList {
+			sites, d, exact := stackAnalyse(m, f, sum)
+			all = append(all, sites...)
+			if exact && d != sum[f] && d >= -8 && d <= 8 {
+				sum[f] = d
+				changed = true
+			}
+		}
+		if !changed {
+			break
+		}
+		if round > 2*len(m.famList) {
+			core.Bail("path-stack summaries of the scanner functions do not stabilise")
+		}
+	}
+	// an entry scanner (called from outside the family) must be balanced
 	for _, f := range m.famList {
+		if sum[f] == 0 {
+			continue
+		}
+		for _, g := range c.SrcFuncs() {
+			if m.fam[g] {
+				continue
+			}
+			for _, ci := range core.Calls(g) {
+				if ci.Common().StaticCallee() == f {
+					all = append(all, stackSite{f: f, key: fmt.Sprintf("%s: called from %s with a non-zero stack delta", f.Name(), g.Name()), pos: ci.Pos(),
+						bad: fmt.Sprintf("the scanner leaves the path stack at entry%+d on success and is called from outside the scanner family: later keys are looked up under a stale path", sum[f])})
+				}
+			}
+		}
+	}
+	c.Memo["stackAnalysis"] = all
+	return all
+}
+
+// stackAnalyse: the typestate of one scanner function under the summaries sum
+// of its callees (success delta). It returns the sites, and the common success
+// delta of the function when every success return has the same one.
+func stackAnalyse(m *jsonModel, f *ssa.Function, sum map[*ssa.Function]int) (all []stackSite, delta int, exact bool) {
+	{
 		edges, _ := failEdges(f, m.fam)
 		failed := map[[2]*ssa.BasicBlock]bool{}
+		// success edge of a test of one call's result, the call being in the block of the test
+		bonus := map[[2]*ssa.BasicBlock]int{}
 		for _, e := range edges {
 			failed[[2]*ssa.BasicBlock{e.from, e.to}] = true
+			if len(e.calls) == 1 && e.calls[0].Block() == e.from {
+				if g := e.calls[0].Call.StaticCallee(); g != nil && sum[g] > 0 {
+					for _, sc := range e.from.Succs {
+						if sc != e.to {
+							bonus[[2]*ssa.BasicBlock{e.from, sc}] = sum[g]
+						}
+					}
+				}
+			}
 		}
+		retIv := map[*ssa.Return]ival{}
 		type st struct {
 			succ ival
 			all  int
@@ -583,6 +642,18 @@ func stackAnalysis(c *core.Ctx) []stackSite {
 						set(key, x.Pos(), x, "", "unrecognised store to the path stack inside the scanner ("+k+")", "")
 					}
 				case *ssa.Call:
+					if g := x.Call.StaticCallee(); g != nil && m.fam[g] && sum[g] != 0 {
+						// success: +d; failure: not below entry (checked at the callee's failure returns). Without
+						// knowing which, the lower bound over all paths moves by min(d, 0); the success edge of the
+						// result test adds the rest.
+						d := sum[g]
+						cur.succ.lo += d
+						cur.succ.hi += d
+						if d < 0 {
+							cur.all += d
+						}
+						continue
+					}
 					hs := stackHelperOf(m, x.Call.StaticCallee())
 					if hs == nil {
 						continue
@@ -611,14 +682,28 @@ func stackAnalysis(c *core.Ctx) []stackSite {
 						} else {
 							set(key, x.Pos(), nil, "", "", "failure return, depth >= entry")
 						}
-					} else if cur.sOK && (cur.succ.lo != 0 || cur.succ.hi != 0) {
-						hi := fmt.Sprint(cur.succ.hi)
-						if cur.succ.hi >= bigDelta {
-							hi = "unbounded"
-						}
-						set(key, x.Pos(), nil, fmt.Sprintf("success return leaves the path stack at entry%+d..%s: a push is not matched by a pop on this path, later keys are looked up under a stale path", cur.succ.lo, hi), "", "")
-					} else {
+					} else if !cur.sOK {
+						delete(retIv, x)
 						set(key, x.Pos(), nil, "", "", "success return balanced")
+					} else {
+						retIv[x] = cur.succ
+						d := sum[f]
+						switch {
+						case cur.succ.lo == d && cur.succ.hi == d && d == 0:
+							set(key, x.Pos(), nil, "", "", "success return balanced")
+						case cur.succ.lo == d && cur.succ.hi == d:
+							set(key, x.Pos(), nil, "", "", fmt.Sprintf("success return at entry%+d, as every success return of this scanner; callers account for it", d))
+						default:
+							hi := fmt.Sprint(cur.succ.hi)
+							if cur.succ.hi >= bigDelta {
+								hi = "unbounded"
+							}
+							what := "a push is not matched by a pop on this path"
+							if d != 0 {
+								what = fmt.Sprintf("the other success returns of this scanner leave it at entry%+d and its callers rely on that", d)
+							}
+							set(key, x.Pos(), nil, fmt.Sprintf("success return leaves the path stack at entry%+d..%s: %s, later keys are looked up under a stale path", cur.succ.lo, hi, what), "", "")
+						}
 					}
 				}
 			}
@@ -627,6 +712,7 @@ func stackAnalysis(c *core.Ctx) []stackSite {
 				if failed[[2]*ssa.BasicBlock{b, sc}] {
 					nx.sOK = false
 				}
+				nx.all += bonus[[2]*ssa.BasicBlock{b, sc}]
 				old, ok := in[sc]
 				if !ok {
 					cp := nx
@@ -663,9 +749,19 @@ func stackAnalysis(c *core.Ctx) []stackSite {
 		for _, k := range order {
 			all = append(all, *results[k])
 		}
+		first := true
+		exact = true
+		for _, iv := range retIv {
+			if iv.lo != iv.hi || (!first && iv.lo != delta) {
+				exact = false
+			}
+			delta, first = iv.lo, false
+		}
+		if first {
+			exact = false
+		}
 	}
-	c.Memo["stackAnalysis"] = all
-	return all
+	return all, delta, exact
 }
 
 var ruleStackBalance = &core.Rule{ID: "R10.1", Min: 25,
@@ -1506,9 +1602,9 @@ var ruleAccounting = &core.Rule{ID: "R08.6", Min: 18,
 						lenAccounted[r] = true // the literal form: every success return is covered by the settlement
 					}
 				}
-				}
-				// a scanner that reports a length as consumed (return len(X)) outside the recognised literal forms
-				if m.fam[f] {
+			}
+			// a scanner that reports a length as consumed (return len(X)) outside the recognised literal forms
+			if m.fam[f] {
 				nth := 0
 				for _, r := range core.Returns(f) {
 					ln, ok := r.Results[0].(*ssa.Call)
@@ -1542,7 +1638,7 @@ var ruleAccounting = &core.Rule{ID: "R08.6", Min: 18,
 						s.Und(key, c.Pos(r.Pos()), "the scanner reports len(...) bytes as consumed in a form whose inspected-byte accounting is not recognised")
 					}
 				}
-				}
+			}
 			// straight-line regions: maximal chains of blocks linked by single-successor / single-predecessor jumps
 			region := map[*ssa.BasicBlock]*ssa.BasicBlock{}
 			for _, b := range f.Blocks {
